@@ -156,6 +156,23 @@ def enc_dec(E, R, hrp, witver, n):
     return "ok"
 
 
+def enc_hrp(E, R, hrp, witver, n):
+    """encode with a long or odd human-readable prefix: a string is returned only if it is a valid address
+    (<= 90 characters, prefix characters in 33..126, lower case), otherwise nothing"""
+    prog = E.bytes("prog", n)
+    s = E.run(R.bech32.encode, hrp, witver, prog)
+    total = len(hrp) + 1 + 1 + (8 * n + 4) // 5 + 6
+    hrp_ok = len(hrp) >= 1 and all(33 <= ord(c) <= 126 for c in hrp) and hrp == hrp.lower()
+    ok = legal(witver, n) and total <= 90 and hrp_ok
+    if isinstance(s, Raised) or s is None:
+        E.check(not ok, "legal (version, length) with a legal prefix encodes")
+        return "none"
+    E.check(ok, "no address is produced for an over-long string or an illegal prefix")
+    d = ref_decode(E, hrp, list(s))
+    E.check(d is not None, "what encode returns is a valid BIP173/350 address")
+    return "ok"
+
+
 def helper_addr(E, R, kind, testnet):
     """helper wrappers choose hrp by network and witness version 0"""
     n = 20 if kind == "p2wpkh" else 32
@@ -573,6 +590,11 @@ def cases(tier):
             cs.append(Case("enc[%s,v%d]" % (hrp, witver), "enc_row", dict(hrp=hrp, witver=witver), weight=20,
                            need=("decode(encode) returns the program",) if witver <= 16 else
                            ("legal (version, length) encodes",)))
+    for L in (18, 19, 20, 30, 31, 32, 50, 51, 52, 82, 83, 84):
+        for (wv, n) in ((1, 40), (0, 32), (0, 20), (16, 2)):
+            cs.append(Case("enc_hrp[len%d,v%d,%d]" % (L, wv, n), "enc_hrp", dict(hrp="x" * L, witver=wv, n=n)))
+    for bad in ("B", "bC", " c", "b\x7f", "b\x80c", ""):
+        cs.append(Case("enc_hrp[%r]" % bad, "enc_hrp", dict(hrp=bad, witver=0, n=20)))
     for kind in ("p2wpkh", "p2wsh"):
         for t in (False, True):
             cs.append(Case("helper[%s,%s]" % (kind, t), "helper_addr", dict(kind=kind, testnet=t),
